@@ -177,8 +177,8 @@ def gen_program(rng, focus="mix", wild=False, max_bodies=4, max_ops=7):
                 s = rng.choice(t.sems)
                 r = rng.random()
                 npm = rng.choice([1, 1, 1, 2, 3])
-                if wild and rng.random() < 0.15:
-                    npm = 0
+                if rng.random() < (0.15 if wild else 0.06):
+                    npm = 0           # an empty permit (legal in tokio; since /repo bc6ccc4 also here)
                 if r < 0.35:
                     ops.append("ac%d.%d" % (s, npm))
                     held.append(s)
